@@ -366,3 +366,35 @@ func phaseUnit(p *packages.Package, fd *ast.FuncDecl) []*ast.FuncDecl {
 	}
 	return unit
 }
+
+// usedAsValue: the function is mentioned somewhere other than as the callee of a call (stored, passed on), so its call
+// sites are not all known.
+func usedAsValue(p *packages.Package, fn *types.Func) bool {
+	if fn == nil {
+		return true
+	}
+	callees := map[*ast.Ident]bool{}
+	for _, f := range p.Syntax {
+		ast.Inspect(f, func(n ast.Node) bool {
+			if call, ok := n.(*ast.CallExpr); ok {
+				switch fun := ast.Unparen(call.Fun).(type) {
+				case *ast.Ident:
+					callees[fun] = true
+				case *ast.SelectorExpr:
+					callees[fun.Sel] = true
+				}
+			}
+			return true
+		})
+	}
+	used := false
+	for _, f := range p.Syntax {
+		ast.Inspect(f, func(n ast.Node) bool {
+			if id, ok := n.(*ast.Ident); ok && p.TypesInfo.Uses[id] == types.Object(fn) && !callees[id] {
+				used = true
+			}
+			return true
+		})
+	}
+	return used
+}
